@@ -132,11 +132,17 @@ def arg_py(a):
 
 
 def _tstep(t, op, a):
+    if op == 'x':
+        return t.__star__()
     return t[a] if op == '[' else getattr(t, a)
 
 
 def _parts(steps):
     return [arg_py(s['arg']) if s['op'] == 'P' else _tstep(T, s['op'], arg_py(s['arg'])) for s in steps]
+
+
+def has_star(steps):
+    return any(s['op'] == 'x' for s in steps)
 
 
 def _merged(steps, root=None):
@@ -166,11 +172,12 @@ def spellings(steps):
     out = []
     ops = [s['op'] for s in steps]
     args = [arg_py(s['arg']) for s in steps]
-    if all(o == 'P' for o in ops) and all(isinstance(a, str) and a and '.' not in a and a not in ('*', '**') for a in args):
-        text = '.'.join(args)
+    if all(o in 'Px' for o in ops) and all(o == 'x' or (isinstance(a, str) and a and '.' not in a and a not in ('*', '**'))
+                                           for o, a in zip(ops, args)):
+        text = '.'.join('*' if o == 'x' else a for o, a in zip(ops, args))
         out.append(('dotted', lambda: text, False))
     out.append(('Path', lambda: Path(*_parts(steps)), False))
-    if any(o != 'P' for o in ops) and any(o == 'P' for o in ops):
+    if any(o not in 'Px' for o in ops) and any(o == 'P' for o in ops):
         out.append(('Path-merged', lambda: _merged(steps), False))
     if all(o != 'P' for o in ops):
         out.append(('T', lambda: _chain(steps, T), False))
@@ -299,6 +306,8 @@ def conform_clause(case, exp, obs):
     """ConformClause of GlomMutate.tla on an observation (same order of clauses)."""
     n0 = len(case['heap0'])
     h = obs['heap']
+    if exp['err'] == 'unspecified':
+        return ''
     if len(h) < n0:
         return 'heap-size'
     if exp['lenient']:
@@ -315,7 +324,7 @@ def conform_clause(case, exp, obs):
         if h != exp['heap']:
             return 'heap-effect'
         return ''
-    if h[:n0] != case['heap0']:
+    if h[:n0] != exp['heap'][:n0]:      # exp.heap = heap0 on wildcard-free paths
         return 'not-atomic'
     if exp['err'] != 'any' and obs['cls'] != exp['err']:
         return 'error-class'
@@ -356,7 +365,32 @@ def replay_state(st, out, matcher_info=None):
 
 
 def new_out():
-    return dict(n=0, cases=0, nontrivial=0, bad=[], samples=[], drift_cls=0, drift_samples=[], log_rows=[])
+    return dict(n=0, cases=0, nontrivial=0, bad=[], samples=[], drift_cls=0, drift_samples=[], log_rows=[], vac={})
+
+
+def _branches(st):
+    """which branches of the machine the behaviour of this terminal state went through"""
+    case, log, n0 = st['case'], st['log'], len(st['case']['heap0'])
+    keys = ['ok' if st['out']['ok'] else 'error:' + st['exp']['err']]
+    if len(case['steps']) > 1:
+        keys.append('fetch-parent')
+    if any(e['ev'] == 'factory' for e in log):
+        keys.append('factory-call')
+    if any(e['ev'] == 'write' and e['a'] > n0 for e in log):
+        keys.append('build-tail')
+    if any(e['ev'] == 'write' and e['a'] <= n0 and e['done'] and e['op'] == 'set' for e in log):
+        keys.append('store')
+    if any(e['ev'] == 'write' and e['done'] and e['op'] == 'del' for e in log):
+        keys.append('del')
+    if any(e['ev'] == 'write' and not e['done'] for e in log):
+        keys.append('failed-write')
+    if any(case['flags']):
+        keys.append('fault-flag')
+    if st['exp']['lenient']:
+        keys.append('lenient')
+    if has_star(case['steps']):
+        keys.append('wildcard')
+    return keys
 
 
 def worker(states):
@@ -369,6 +403,8 @@ def worker(states):
         # non-trivial: the parent exists or is created, i.e. a write is attempted or a tail is built
         if st['log'] or st['out']['ok']:
             out['nontrivial'] += 1
+        for key in _branches(st):
+            out['vac'][key] = out['vac'].get(key, 0) + 1
         if len(out['samples']) < 1 and st['log'] and len(case['steps']) >= 2:
             out['samples'].append(dict(case=case, exp=st['exp'], out=st['out'], log=st['log']))
         replay_state(st, out)
@@ -469,9 +505,17 @@ def abstract_step(cells, cur, st):
     return None
 
 
-def rand_steps(rng, cells, root, lo, hi, p_valid=0.85):
+def rand_steps(rng, cells, root, lo, hi, p_valid=0.85, p_star=0.0):
     steps, cur = [], root
-    for _ in range(rng.randint(lo, hi)):
+    n = rng.randint(lo, hi)
+    for j in range(n):
+        if j < n - 1 and rng.random() < p_star and cur is not None and cur['k'] == 'ref' \
+                and cells[cur['a'] - 1]['cls'] in ('dict', 'list', 'tuple', 'obj') and cells[cur['a'] - 1]['items']:
+            c = cells[cur['a'] - 1]
+            steps.append({'op': 'x', 'arg': {'k': 'none'}})
+            kids = [it[1] if c['cls'] in ('dict', 'obj') else it for it in c['items']]
+            cur = rng.choice(kids)
+            continue
         st = rand_step(rng, cells, cur, valid=rng.random() < p_valid)
         steps.append(st)
         cur = abstract_step(cells, cur, st)
@@ -481,7 +525,7 @@ def rand_steps(rng, cells, root, lo, hi, p_valid=0.85):
 def rand_case(rng, kind):
     cells = rand_heap(rng)
     root = {'k': 'ref', 'a': 1}
-    steps = rand_steps(rng, cells, root, 1, 6)
+    steps = rand_steps(rng, cells, root, 1, 6, p_star=rng.choice([0.0, 0.0, 0.0, 0.3]))
     flags = [''] * len(cells)
     r = rng.random()
     if r < 0.25:
@@ -506,7 +550,7 @@ def rand_case(rng, kind):
             case['val']['steps'] = vsteps
         elif r < 0.4:
             case['val']['v'] = rng.choice([_sv('s'), _sv(None), _sv(0)])
-        if rng.random() < 0.5:
+        if rng.random() < 0.5 and not has_star(steps):
             case['missing'] = rng.choice(['dict', 'dict', 'obj', 'list'])
             case['facfail'] = rng.choice([0, 0, 0, 1, 2, 3])
     else:
@@ -524,3 +568,227 @@ def record_rows(rng, n, kind):
         obs = run_case(case, sp, True)
         rows.append(dict(case=case, obs=obs, spelling=sp[0]))
     return rows
+
+
+# ---- driver shared by c11.py / c12.py ---------------------------------------------------
+import json as _json
+import random as _random
+import time as _time
+
+
+class Driver:
+    """prop / kind / MC module / Trace module / need (actions that must be covered) /
+    match (known-finding matcher for replay cases) / match_rows (for recorded rows)"""
+
+    def __init__(self, prop, kind, mc, trace, need, match, match_rows, mutants, mutant_universe,
+                 coverage_universe=None):
+        self.prop, self.kind, self.mc, self.trace, self.need = prop, kind, mc, trace, need
+        self.match, self.match_rows = match, match_rows
+        self.mutants, self.mutant_universe = mutants, mutant_universe
+        self.coverage_universe = coverage_universe or mutant_universe
+        self.branches = {}
+        self._t = None
+
+    def lap(self, check, label):
+        now = _time.time()
+        if self._t is not None:
+            check.extra.setdefault('stage_wall_s', {})[label] = round(now - self._t, 1)
+        self._t = now
+
+    def run_universe(self, check, consts, label, machine=True):
+        box = {}
+        th = None
+        if machine:      # every intermediate state of the machine against the state laws (runs alongside the replay)
+            import threading
+
+            def run_machine():
+                try:
+                    box['res'] = vlib.run_tlc(self.mc, cfg=self.mc, constants=consts, workers=max(4, vlib.NCPU // 2))
+                except BaseException as e:      # re-raised in the main thread
+                    box['exc'] = e
+            th = threading.Thread(target=run_machine)
+            th.start()
+        try:
+            res2, results = vlib.map_states(self.mc, worker, cfg=self.mc + '_cases', constants=consts)
+        finally:
+            if th is not None:
+                th.join()
+        if machine:
+            if 'exc' in box:
+                raise box['exc']
+            vlib.tlc_must_pass(box['res'], '%s machine %s' % (self.mc, label))
+            check.add_tlc(box['res'], '%s machine [%s]' % (self.mc, label))
+        check.add_tlc(res2, '%s cases [%s]' % (self.mc, label))
+        log_rows = []
+        drift = 0
+        for r in results:
+            check.cov['evaluations'] += r['n']
+            check.cov['distinct_nontrivial'] += r['nontrivial']
+            badcases = {_json.dumps(b['case']['case'], sort_keys=True) for b in r['bad']}
+            check.validated(r['cases'] - len(badcases))
+            for s in r['samples']:
+                check.sample(s)
+            for b in r['bad']:
+                check.violation(b['case'], b['why'], matcher=self.match)
+            for k, v in r['vac'].items():
+                self.branches[k] = self.branches.get(k, 0) + v
+            drift += r['drift_cls']
+            for d in r['drift_samples']:
+                if len(check.extra.setdefault('drift_class_samples', [])) < 5:
+                    check.extra['drift_class_samples'].append(d)
+            log_rows += r['log_rows']
+        check.extra['drift_error_class'] = check.extra.get('drift_error_class', 0) + drift
+        return log_rows
+
+    def validate(self, check, rows, label):
+        """Rows through the Trace module; law clauses are violations, drift- clauses are counted."""
+        if not rows:
+            return
+        slim = [dict(case=r['case'], obs=r['obs']) for r in rows]
+        index = {id(s): r for s, r in zip(slim, rows)}
+        rejects = vlib.validate_rows(check, self.trace, slim, label, chunk=4000)
+        for (row, rej) in rejects:
+            full = index.get(id(row), row)
+            if rej['clause'].startswith('drift-'):
+                check.extra['drift_' + label] = check.extra.get('drift_' + label, 0) + 1
+                check.validated(1)
+                if len(check.extra.setdefault('drift_samples', [])) < 3:
+                    check.extra['drift_samples'].append(dict(clause=rej['clause'], steps=row['case']['steps'],
+                                                             spelling=full.get('spelling', ''), log=row['obs']['log']))
+                continue
+            info = dict(case=row['case'], obs=row['obs'], exp=None, spelling=full.get('spelling', ''), logging=True,
+                        clause=rej['clause'], direction='code->spec')
+            check.violation(info, 'recorded execution rejected by the specification: clause %s' % rej['clause'],
+                            matcher=self.match_rows)
+
+    def run_coverage(self, check):
+        """vacuity: every machine action is taken (TLC -coverage on a small universe)."""
+        res = vlib.run_tlc(self.mc, cfg=self.mc, constants=dict(self.coverage_universe, Mutant='"none"'), coverage=True)
+        vlib.tlc_must_pass(res, self.mc + ' coverage')
+        cov = {a: res['coverage'].get(a, 0) for a in self.need}
+        if not all(cov.values()):
+            raise vlib.MachineryError('machine actions never taken: %s' % cov)
+        check.extra['action_coverage'] = cov
+
+    def corrupted_rows_rejected(self, check, rows):
+        """self-test of the code -> spec direction: recorded rows with one corrupted field must be
+        rejected by the Trace module with a law clause (exit 2 otherwise)."""
+        import copy
+        bad = []
+        # (1) a successful wildcard-free write whose recorded final heap lost the written entry
+        for r in rows:
+            o = r['obs']
+            w = [e for e in o['log'] if e['ev'] == 'write' and e['done']]
+            if o['ok'] and w and not has_star(r['case']['steps']) and r['case']['missing'] == 'none':
+                c = copy.deepcopy(dict(case=r['case'], obs=o))
+                c['obs']['heap'] = copy.deepcopy(r['case']['heap0'])
+                bad.append(('heap-effect', c))
+                break
+        # (2) a failing wildcard-free run with an effective write to a pre-existing cell before its last event
+        for r in rows:
+            o = r['obs']
+            if not o['ok'] and not has_star(r['case']['steps']) and r['case']['heap0'][0]['cls'] in ('dict', 'list', 'obj'):
+                c = copy.deepcopy(dict(case=r['case'], obs=o))
+                ev = {'ev': 'write', 'a': 1, 'op': 'set' if self.kind == 'assign' else 'del',
+                      'key': {'k': 'str', 's': 'zz'}, 'done': True}
+                c['obs']['log'] = [ev] + c['obs']['log'] + [dict(ev, done=False)]
+                bad.append(('attach-last' if self.kind == 'assign' else 'write-not-last', c))
+                break
+        # (3) a failing run recorded as a success
+        for r in rows:
+            o = r['obs']
+            if not o['ok'] and not has_star(r['case']['steps']):
+                c = copy.deepcopy(dict(case=r['case'], obs=o))
+                c['obs'].update(ok=True, cls='', v=r['case']['root'])
+                bad.append(('no-error', c))
+                break
+        if len(bad) < 3:
+            raise vlib.MachineryError('could not build the corrupted rows (%d)' % len(bad))
+        scratch = vlib.Check(self.prop, 'selftest', 0)
+        rejects = vlib.validate_rows(scratch, self.trace, [c for _, c in bad], 'corrupted')
+        got = {id(row): rej['clause'] for row, rej in rejects}
+        verdicts = [got.get(id(c), 'accepted') for _, c in bad]
+        ok = all(v != 'accepted' and not v.startswith('drift-') for v in verdicts)
+        check.extra['corrupted_rows'] = dict(expected=[e for e, _ in bad], verdicts=verdicts)
+        if not ok:
+            raise vlib.MachineryError('corrupted recorded rows were not rejected: %s' % verdicts)
+
+    def run_mutants(self, check):
+        got = {}
+        for name, laws in self.mutants.items():
+            consts = dict(self.mutant_universe, Mutant='"%s"' % name)
+            res = vlib.run_tlc(self.mc, cfg=self.mc, constants=consts)
+            got[name] = res['violated']
+            if res['violated'] not in laws:
+                raise vlib.MachineryError('spec mutant %s: expected one of %s violated, TLC says %r'
+                                          % (name, laws, res['violated']))
+        check.extra['spec_mutants_violate'] = got
+
+    def main(self, tier, seed, universes, nrandom, assumptions, rule):
+        check = vlib.Check(self.prop, tier, seed)
+        self.lap(check, 'start')
+        if tier == 'thorough':       # TLC -coverage is slow; the quick tier checks vacuity on the replayed behaviours
+            self.run_coverage(check)
+            self.lap(check, 'coverage')
+        log_rows = []
+        for u in universes:
+            label, consts = u[0], u[1]
+            log_rows += self.run_universe(check, consts, label, machine=(len(u) < 3 or u[2]))
+            self.lap(check, 'tlc+replay ' + label)
+        check.extra['behaviours_by_branch'] = dict(sorted(self.branches.items()))
+        want = ['ok', 'fetch-parent', 'failed-write', 'fault-flag', 'wildcard', 'error:PathAccessError', 'error:any']
+        want += ['factory-call', 'build-tail', 'store'] if self.kind == 'assign' else ['del', 'error:PathDeleteError', 'lenient']
+        if not all(self.branches.get(k) for k in want):
+            raise vlib.MachineryError('vacuous universe: no behaviour through %s'
+                                      % [k for k in want if not self.branches.get(k)])
+        if tier == 'thorough':
+            self.run_mutants(check)
+            self.lap(check, 'spec-mutants')
+        check.extra['replays_with_other_write_log'] = len(log_rows)
+        self.validate(check, log_rows[:(600 if tier == 'quick' else 6000)], 'replay-logs')
+        self.lap(check, 'validate-replay-logs')
+        rng = _random.Random(seed * 7919 + 11)
+        rows = record_rows(rng, nrandom, self.kind)
+        check.extra['recorded_rows'] = len(rows)
+        check.cov['evaluations'] += len(rows)
+        for r in rows[:2]:
+            check.sample(dict(kind='recorded', case=r['case'], obs=r['obs'], spelling=r['spelling']), limit=6)
+        self.lap(check, 'record-random')
+        if tier == 'thorough':
+            self.corrupted_rows_rejected(check, rows)
+        self.validate(check, rows, 'random')
+        self.lap(check, 'validate-random')
+        check.extra['constants'] = [u[1] for u in universes]
+        check.assumptions += assumptions
+        return check.finish(rule=rule, exhaustive=True)
+
+    def replay(self, path):
+        with open(path) as f:
+            v = _json.load(f)
+        info = v['case']
+        case = info['case']
+        print('case:', _json.dumps({k: case[k] for k in ('kind', 'root', 'steps', 'val', 'missing', 'facfail', 'ignore', 'flags')}))
+        print('heap0:', _json.dumps(case['heap0']))
+        bad = 0
+        logging = info.get('logging', True)
+        for sp in spellings(case['steps']):
+            if info.get('spelling') and sp[0] != info['spelling']:
+                continue
+            obs = run_case(case, sp, logging)
+            print('spelling=%s logging=%s observed: ok=%s cls=%s v=%s nfac=%s'
+                  % (sp[0], logging, obs['ok'], obs['cls'], obs['v'], obs['nfac']))
+            print('  heap:', _json.dumps(obs['heap']))
+            print('  log :', _json.dumps(obs['log']))
+            if info.get('exp'):
+                clause = conform_clause(case, info['exp'], obs)
+                print('  expected: %s' % _json.dumps({k: info['exp'][k] for k in ('ok', 'err', 'lenient', 'v')}))
+                print('  expected heap: %s' % _json.dumps(info['exp']['heap']))
+                print('  clause: %r' % clause)
+                bad += bool(clause)
+            else:
+                check = vlib.Check(self.prop, 'replay', 0)
+                rej = vlib.validate_rows(check, self.trace, [dict(case=case, obs=obs)], 'replay')
+                real = [r for r in rej if not r[1]['clause'].startswith('drift-')]
+                print('  specification verdict: %s' % ([r[1]['clause'] for r in rej] or 'accepted'))
+                bad += bool(real)
+        return 1 if bad else 0
